@@ -11,7 +11,7 @@ def components():
 
 def oracles_():
     return [oracles.MergeDup(), comps_c14x.DupMatrix(), comps_c14x.MergeKinds(), comps_c14x.DupFamilies(),
-            comps_c14x.MergeFamilies()]
+            comps_c14x.MergeFamilies(), comps_c14x.OriginUse()]
 
 
 TRUSTED = [
@@ -65,7 +65,13 @@ MANIFEST = {
             "without WITH_PARENTS / RECURSIVE, parent arguments of the other context incl. one named like an ancestor but of the "
             "other module, which must be refused), duplicates half of the cross-context duplicates back (context 1 -> 2 -> 1) and "
             "requires the whole forest to survive the round trip unchanged (dump, private pointers, lyd_compare_siblings); "
-            "mergefamilies merges, in the second context, a source duplicated from the first one.",
+            "mergefamilies merges, in the second context, a source duplicated from the first one. originuse covers origin format x "
+            "later use of the copy: source trees parsed from XML, JSON and LYB documents (validated and LYD_PARSE_ONLY) with every "
+            "value type that keeps format-dependent state (unions of every member kind as leaf, key, leaf-list and metadata value, "
+            "instance-identifier, identityref, leafref, binary, bits, decimal64, anydata); every duplicate (all entry points, other "
+            "context) and merge result (copying and consuming, into an empty target) is judged as above and then USED: printed by "
+            "the three printers (text equal to the original's; LYB bytes equal when flags were copied), parsed back and compared "
+            "with lyd_compare_siblings, lyd_validate_all on the copy (must succeed and change nothing), compared with the original.",
     "note": "PARTIAL. (1) Independence of a duplicate / of the merge source is a heap property (no shared mutable state): the value "
             "model cannot express it, Merge.dup is the identity; only the sanitizer-backed oracle looks at it. (2) The three "
             "_partial theorems do not speak about instances of duplicate-instance lists (key-less lists, config false leaf-lists): "
@@ -80,7 +86,10 @@ MANIFEST = {
             "is not reflexive for them: reported). anydata / anyxml nodes with a NULL value of every value type (string types "
             "included) ARE generated (xanyset N) and duplicated / merged / dumped, but such a tree is never printed as LYB (the LYB "
             "values are printed from copies taken before the edits), so the strlen(NULL) of lyb_print_node_any reported by the "
-            "difftree slice is not reachable from these oracles. Findings of these oracles, all fixed (known_findings.d/c14x.json: 328b4fe 2848a32 "
+            "difftree slice is not reachable from these oracles. Open finding dup-to-ctx-union-member (cross-context copy of a union value changes its member: LYB round trip "
+            "of the copy differs). A leafref member inside the union typedef used by a metadata annotation aborts in "
+            "lyplg_type_store_leafref (realtype not resolved; reported) - the originuse module has no such member. Findings of these "
+            "oracles fixed so far (known_findings.d/c14x.json: 328b4fe 2848a32 "
             "1e72cd5 aad6b04 c60598c); their witnesses are regression cases in corpus/dupmatrix.txt and corpus/mergekinds.txt.",
     "technique": "Coq proof about a transcribed functional model + differential correspondence on libyang dumps + metamorphic API "
                  "oracle under ASan",
